@@ -7,6 +7,10 @@ From the source text of /repo/mako/lexer.py and /repo/mako/parsetree.py (Python 
                       found (finding F1); True after the proposed `fix:` patch;
   * `textTagStepBack` - does `match_tag_start` put `match_position` back after an *empty* `<%text>` body
                       (shape: an assignment to `self.match_position` inside `match_tag_start`)?
+  * `textlengthIsLexedLength` - in `Lexer.parse`, `self.textlength = len(self.text)` is a top-level statement that
+                      comes after the preprocessor loop (the last statement that assigns `self.text`) and before
+                      the `while` loop: the loop's `match_position > textlength` test and `match_reg`'s column
+                      arithmetic then refer to the text that is actually lexed;
   * `primaryKeywords` / `ternaryTable` - `ControlLine.is_primary`'s list and `ControlLine.is_ternary`'s dict;
   * `regexFingerprint` - sha1 over all string literals passed to `self.match(...)`/`re.match`/`re.findall`/
                       `re.compile` in lexer.py (never changes a verdict; the harness only uses it to decide how
@@ -48,6 +52,35 @@ def matcher_order(fn):
     return order
 
 
+def textlength_order(fn):
+    """True iff `self.textlength = len(self.text)` is assigned at the top level of `parse`, after every top-level
+    statement that assigns `self.text` and before the while loop"""
+    def assigns(st, attr):
+        for n in ast.walk(st):
+            if isinstance(n, (ast.Assign, ast.AugAssign, ast.AnnAssign)):
+                targets = n.targets if isinstance(n, ast.Assign) else [n.target]
+                for tg in targets:
+                    for x in ast.walk(tg):
+                        if (isinstance(x, ast.Attribute) and isinstance(x.value, ast.Name) and x.value.id == "self"
+                                and x.attr == attr):
+                            return True
+        return False
+    i_len = i_text = i_while = None
+    for i, st in enumerate(fn.body):
+        if isinstance(st, ast.While) and i_while is None:
+            i_while = i
+        if i_while is None and assigns(st, "text"):
+            i_text = i
+        if (isinstance(st, ast.Assign) and len(st.targets) == 1 and assigns(st, "textlength")
+                and ast.dump(st.value) == ast.dump(ast.parse("len(self.text)", mode="eval").body)):
+            i_len = i
+    if i_while is None:
+        raise RegenError("%s: Lexer.parse has no top-level while loop" % LEX)
+    if i_len is None:
+        return False
+    return (i_text is None or i_text < i_len) and i_len < i_while
+
+
 def string_consts(node):
     """literal string value of an expression made of constants, implicit concatenation and `%`-formatting"""
     out = []
@@ -77,6 +110,7 @@ def gen(repo):
     tree = parse(repo, LEX)
     cls = find_class(tree, "Lexer", LEX)
     order = matcher_order(find_func(cls.body, "parse", LEX))
+    tl_ok = textlength_order(find_func(cls.body, "parse", LEX))
     mt = find_func(cls.body, "match_text", LEX)
     n_append = sum(1 for n in ast.walk(mt) if _is_self_call(n, "append_node"))
     if n_append == 0:
@@ -139,6 +173,8 @@ def gen(repo):
            "def emitSkipped : Bool := %s" % ("true" if emit_skipped else "false"), "",
            "/-- `match_tag_start` steps back after an empty `<%text>` body (fix present) -/",
            "def textTagStepBack : Bool := %s" % ("true" if step_back else "false"), "",
+           "/-- `parse` sets `textlength = len(self.text)` after the preprocessor loop and before the main loop -/",
+           "def textlengthIsLexedLength : Bool := %s" % ("true" if tl_ok else "false"), "",
            "/-- `ControlLine.is_primary` -/",
            "def primaryKeywords : List (List Char) := [%s]" % ", ".join(lean_str(k) for k in primary), "",
            "/-- `ControlLine.is_ternary`: primary keyword ↦ its legal ternary keywords -/",
